@@ -587,7 +587,9 @@ func (em *emitter) emitAssignmentNode(node *ast.Assignment) {
 			}
 			typ := em.typ(v.Expr)
 			reg := em.emitExpr(v.Expr, typ)
-			if len(node.Lhs) > 1 {
+			if len(node.Lhs) > 1 || reg < 0 {
+				// If the pointer is in an indirect register, it is loaded
+				// into a direct register before it is dereferenced.
 				reg = em.copyOperand(reg, typ)
 			}
 			addresses[i] = em.addressPtrIndirect(reg, typ, pos, node.Type)
@@ -599,9 +601,9 @@ func (em *emitter) emitAssignmentNode(node *ast.Assignment) {
 }
 
 // copyOperand copies the operand in the register reg, with type typ, into a
-// new register and returns it. If reg is a constant, returns reg.
+// new register and returns it.
 func (em *emitter) copyOperand(reg int8, typ reflect.Type) int8 {
-	if reg <= 0 {
+	if reg == 0 {
 		return reg
 	}
 	tmp := em.fb.newRegister(typ.Kind())
